@@ -350,29 +350,77 @@ def split_outputs(out):
     return res
 
 
+HANG_BUDGET = int(os.environ.get("VERIF_HANG_BUDGET", "6"))      # individually confirmed hanging cases per run_cases call
+CASE_TIMEOUT = float(os.environ.get("VERIF_CASE_TIMEOUT", "30"))  # a single case (they take milliseconds) that runs this long hangs
+
+
 def run_cases(exe, cases, chunk=40, timeout=300, args=()):
-    """run the cases through an executable in parallel chunks; isolates crashing cases.
-    returns dict id(str) -> {"out": [lines], "rc": int, "err": str}"""
+    """run the cases through an executable in parallel chunks; isolates crashing and hanging cases.
+    returns dict id(str) -> {"out": [lines], "rc": int, "err": str}; rc = -9: the case hung (or was not evaluated any more because
+    HANG_BUDGET cases of this batch had already hung: a harness that hangs on everything must not stall the check for hours)"""
     res = {}
     chunks = [cases[i:i + chunk] for i in range(0, len(cases), chunk)]
+    state = {"hangs": 0, "durations": []}
+
+    def eff_timeout(n):
+        # chunks that completed tell how long a chunk takes on this machine right now: wait 20x that (at least 45 s), never more than `timeout`
+        d = state["durations"]
+        t = timeout
+        if len(d) >= 3:
+            t = min(timeout, max(45.0, 20.0 * max(d)))
+        return max(CASE_TIMEOUT, t * max(1, n) / max(1, chunk)) if n < chunk else t
+
+    def skipped(c):
+        return {"out": [], "rc": -9, "err": "NOT-EVALUATED: %d earlier cases of this batch hung" % state["hangs"]}
 
     def work(ch):
-        rc, out, err = run_proc(exe, "".join(case_text(c) for c in ch), timeout=timeout, args=args)
-        per = split_outputs(out)
         r = {}
-        if rc == 0:
+        while ch:
+            if state["hangs"] >= HANG_BUDGET:
+                for c in ch:
+                    r[str(c["id"])] = skipped(c)
+                return r
+            t0 = time.time()
+            rc, out, err = run_proc(exe, "".join(case_text(c) for c in ch), timeout=eff_timeout(len(ch)), args=args)
+            per = split_outputs(out)
+            if rc == 0:
+                state["durations"].append(time.time() - t0)
+                for c in ch:
+                    r[str(c["id"])] = {"out": per.get(str(c["id"]), []), "rc": 0, "err": ""}
+                return r
+            if len(ch) == 1:
+                c = ch[0]
+                if rc == -9:
+                    state["hangs"] += 1
+                r[str(c["id"])] = {"out": per.get(str(c["id"]), []), "rc": rc, "err": err[-6000:]}
+                return r
+            if rc == -9:
+                # the chunk hung: the cases whose output is followed by another case's header completed; the first one without
+                # such a successor is the one that hangs (confirmed alone, with the single-case timeout); the rest is a new chunk
+                done = 0
+                while done + 1 < len(ch) and str(ch[done + 1]["id"]) in per:
+                    done += 1
+                for c in ch[:done]:
+                    r[str(c["id"])] = {"out": per.get(str(c["id"]), []), "rc": 0, "err": ""}
+                c = ch[done]
+                rc1, out1, err1 = run_proc(exe, case_text(c), timeout=CASE_TIMEOUT, args=args)
+                per1 = split_outputs(out1)
+                if rc1 == -9:
+                    state["hangs"] += 1
+                r[str(c["id"])] = {"out": per1.get(str(c["id"]), []), "rc": rc1, "err": err1[-6000:] if rc1 else ""}
+                ch = ch[done + 1:]
+                continue
+            # crash somewhere: rerun individually
             for c in ch:
-                r[str(c["id"])] = {"out": per.get(str(c["id"]), []), "rc": 0, "err": ""}
+                if state["hangs"] >= HANG_BUDGET:
+                    r[str(c["id"])] = skipped(c)
+                    continue
+                rc1, out1, err1 = run_proc(exe, case_text(c), timeout=CASE_TIMEOUT, args=args)
+                per1 = split_outputs(out1)
+                if rc1 == -9:
+                    state["hangs"] += 1
+                r[str(c["id"])] = {"out": per1.get(str(c["id"]), []), "rc": rc1, "err": err1[-6000:] if rc1 else ""}
             return r
-        if len(ch) == 1:
-            c = ch[0]
-            r[str(c["id"])] = {"out": per.get(str(c["id"]), []), "rc": rc, "err": err[-6000:]}
-            return r
-        # crash somewhere: rerun individually
-        for c in ch:
-            rc1, out1, err1 = run_proc(exe, case_text(c), timeout=timeout, args=args)
-            per1 = split_outputs(out1)
-            r[str(c["id"])] = {"out": per1.get(str(c["id"]), []), "rc": rc1, "err": err1[-6000:] if rc1 else ""}
         return r
 
     with ThreadPoolExecutor(max_workers=NCPU) as ex:
